@@ -136,6 +136,21 @@ impl PathSliceList {
             false_br.write_lvalue_path(w, scopes, model, &rest)?;
             return Ok(());
         }
+        // the path of a scope variable is a run-time value: it is null for the items of a list that has no path
+        // under the current data (`wx:for="{{ c ? list : 2 }}"`), and then so is every path through it
+        let guard = match self.0.first() {
+            Some(PathSlice::ScopeIndex(i)) => match &scopes[*i].lvalue_path {
+                ScopeVarLvaluePath::Var {
+                    var_name,
+                    from_data_scope,
+                } if model != Some(true) || *from_data_scope => Some(var_name),
+                _ => None,
+            },
+            _ => None,
+        };
+        if let Some(var_name) = guard {
+            write!(w, "{}?", var_name)?;
+        }
         write!(w, "[")?;
         let mut write_items = || -> Result<bool, TmplError> {
             let mut need_slice_1 = false;
@@ -186,6 +201,9 @@ impl PathSliceList {
         write!(w, "]")?;
         if need_slice_1 {
             write!(w, ".slice(1)")?;
+        }
+        if guard.is_some() {
+            write!(w, ":null")?;
         }
         Ok(())
     }
